@@ -442,7 +442,7 @@ def _strategy():
 
 
 def run(ctx):
-    ctx.hyp(_strategy, check_case, max_examples=ctx.pick(2500, 60000))
+    ctx.hyp(_strategy, check_case, max_examples=ctx.pick(2500, 150000))
 
 
 def replay(case):
